@@ -182,6 +182,7 @@ def evTok : XTok → List Ev
   | .startTag n => [.mark (.openTag n)]
   | .startTagPI n => [.mark (.pi n)]
   | .attr n v => [.mark (.attr n (attrValue v))]
+  | .attrBare _ n => [.mark (.attr n [.bad])]
   | .startTagClose => []
   | .startTagCloseVoid => [.mark .closeTag]
   | .startTagClosePI => [.mark .piEnd]
@@ -240,10 +241,14 @@ instance (keep : Bool) (a b : List Ev) : Decidable (wsEquiv keep a b) := by unfo
 
 /-! ## well-formedness -/
 
-def hasCdEnd : List Char → Bool
+def startsCdEnd : List Char → Bool
   | ']' :: ']' :: '>' :: _ => true
-  | _ :: r => hasCdEnd r
+  | _ => false
+
+/-- the byte string contains `]]>` -/
+def hasCdEnd : List Char → Bool
   | [] => false
+  | c :: r => startsCdEnd (c :: r) || hasCdEnd r
 
 def legalD : DCh → Bool
   | .c n => legalChar n
@@ -290,9 +295,19 @@ def lexShape : Bool → List XTok → Bool
   | _, [] => true
   | _, .startTag _ :: r => lexShape true r
   | tg, .attr _ _ :: r => lexShape tg r
+  | tg, .attrBare _ _ :: r => lexShape tg r
   | tg, .startTagClose :: r => tg && lexShape false r
   | tg, .startTagCloseVoid :: r => tg && lexShape false r
   | _, _ :: r => lexShape false r
+
+/-- well-formedness constraint: an attribute without value only occurs as a word of processing-instruction
+data (argument: "inside a PI") -/
+def bareInPI : Bool → List XTok → Bool
+  | _, [] => true
+  | _, .startTagPI _ :: r => bareInPI true r
+  | _, .startTagClosePI :: r => bareInPI false r
+  | pi, .attrBare _ _ :: r => pi && bareInPI pi r
+  | pi, _ :: r => bareInPI pi r
 
 /-- emitted tokens: text is character data according to the grammar (no `<`, `&` only in references),
 attribute values are quoted literals without `<`, bare `&` or their own quote character -/
@@ -314,25 +329,12 @@ def nest : List (List Char) → List XTok → Bool
   | [], .endTag _ _ :: _ => false
   | st, _ :: r => nest st r
 
-/-! ## triggers of the known findings (narrow syntactic predicates on the input tokens) -/
-
-def hasCdEndD : List Ev → Bool
-  | .ch (.c 93) :: .ch (.c 93) :: .ch (.c 62) :: _ => true
-  | _ :: r => hasCdEndD r
-  | [] => false
-
-/-- K-C06-3: the character data contains `]]>` (legally: through `&gt;`/`&#62;`, or split over CDATA sections,
-comments) — it is written out literally -/
-def trigCdEnd (ts : List XTok) : Bool := hasCdEndD (infoset ts)
+/-! ## look-ahead predicate used by the loop invariant -/
 
 def lastIsS (l : List Char) : Bool :=
   match l.getLast? with
   | some c => isS c
   | none => false
-
-def headIsS : List Char → Bool
-  | c :: _ => isS c
-  | [] => false
 
 def headIsWsD : List DCh → Bool
   | x :: _ => isWsD x
@@ -348,38 +350,30 @@ def nextTextLeadsS : List XTok → Bool
   | .endTag _ _ :: _ => false
   | _ :: r => nextTextLeadsS r
 
-/-- K-C06-4: a CDATA section that does not end in white space is followed by text starting with white space
-(`omitSpace` is not reset by the CDATA branch: the words are joined) -/
-def trigCdataJoin : List XTok → Bool
-  | [] => false
-  | .cdata _ t :: r => (!t.isEmpty && !lastIsS t && nextTextLeadsS r) || trigCdataJoin r
-  | _ :: r => trigCdataJoin r
-
-/-- K-C06-5: processing instruction whose data is not a list of pseudo-attributes `name="value"`
-(the lexer splits PI data into attributes; a part without `=` is written with an added `=`) -/
-def trigPiData : Bool → List XTok → Bool
-  | _, [] => false
-  | _, .startTagPI _ :: r => trigPiData true r
-  | _, .startTagClosePI :: r => trigPiData false r
-  | inPI, .attr _ v :: r => (inPI && v.isEmpty) || trigPiData inPI r
-  | inPI, _ :: r => trigPiData inPI r
-
-def isCloseWsEnd : XTok → List XTok → Bool
-  | .startTagClose, .text d :: .endTag _ _ :: _ => d.all isS
-  | _, _ => false
-
-/-- K-C06-6: with KeepWhitespace an element whose content is white space only is collapsed to `<a/>` -/
-def trigKeepEmpty (keep : Bool) : List XTok → Bool
-  | [] => false
-  | t :: r => (keep && isCloseWsEnd t r) || trigKeepEmpty keep r
-
-def triggers (keep : Bool) (ts : List XTok) : List String :=
-  (if trigCdEnd ts then ["cdEnd"] else []) ++
-  (if trigCdataJoin ts then ["cdataJoin"] else []) ++
-  (if trigPiData false ts then ["piData"] else []) ++
-  (if trigKeepEmpty keep ts then ["keepEmpty"] else [])
+/-- triggers of open known findings that are decidable on the token level (none at present: K-C06-3…6 are
+fixed in /repo, K-C06-7 is a byte-level trigger evaluated by the harness) -/
+def triggers (_keep : Bool) (_ts : List XTok) : List String := []
 
 /-! ## the property as a decidable predicate on (input tokens, output tokens) -/
+
+/-- automaton for "contains `]]>`": `k` = number of `]` read immediately before -/
+def cdAuto : Nat → List Char → Bool
+  | _, [] => false
+  | k, c :: r =>
+    if c == ']' then cdAuto (k + 1) r
+    else if c == '>' then decide (2 ≤ k) || cdAuto 0 r
+    else cdAuto 0 r
+
+/-- raw character data runs of a token stream: the data of consecutive text tokens (comments in between
+vanish) concatenated; any other token ends the run -/
+def rawRuns : List Char → List XTok → List (List Char)
+  | acc, [] => [acc]
+  | acc, .text d :: r => rawRuns (acc ++ d) r
+  | acc, .comment _ :: r => rawRuns acc r
+  | acc, _ :: r => acc :: rawRuns [] r
+
+/-- some character data run contains the literal sequence `]]>` (not well-formed, §2.4) -/
+def rawCdEnd (ts : List XTok) : Bool := (rawRuns [] ts).any hasCdEnd
 
 def wfOutTok : XTok → Bool
   | .text d => wfChars d
@@ -411,7 +405,7 @@ def holds (keep : Bool) (i o : List XTok) : List String :=
   let isAttr : Mark → Bool := fun m => match m with | .attr _ _ => true | _ => false
   let isPi : Mark → Bool := fun m => match m with | .pi _ => true | .piEnd => true | _ => false
   let isDt : Mark → Bool := fun m => match m with | .doctype _ => true | _ => false
-  (if o.all wfOutTok && !hasCdEndD (infoset o) && (!nest [] i || nest [] o) then [] else ["wf"]) ++
+  (if o.all wfOutTok && !rawCdEnd o && (!nest [] i || nest [] o) then [] else ["wf"]) ++
   (if projTags ci == projTags co then [] else ["struct"]) ++
   (if projNeutral isAttr ci == projNeutral isAttr co then [] else ["attr"]) ++
   (if projNeutral isPi ci == projNeutral isPi co then [] else ["pi"]) ++
